@@ -91,7 +91,7 @@ def run(rep, tier):
     quick = tier == "quick"
     wd = work_dir("C06", "run", clean=True)
     sfx = "small" if quick else "deep"
-    nparts = 3 if quick else 4
+    nparts = 2 if quick else 4
     rep.rule = ("TLC explores every goal with <= %d connectives (<= 1 binary) over 2 variables built by Negate / Quantify(all, exists) / "
                 "Combine(conj, disj, implies-left, implies-right, iff) from the atom shapes (x < 0, 0 <= x, x < y + 1, x - 1 < x, "
                 "(x - y) + y = x, ...) at nat, at int and at nat seen through of_nat::nat=>real, i.e. with binders in positive and negative "
@@ -112,10 +112,10 @@ def run(rep, tier):
     ]
     vec = wd / "vectors.ndjson"
     ev_rand, ev_sym = wd / "z3rand.ndjson", wd / "sympy.ndjson"
-    nrand, nsym = (500, 250) if quick else (6000, 2500)
+    nrand, nsym, stride = (300, 150, 2) if quick else (6000, 2500, 1)
 
     def mutants():
-        ms = MUTANTS[:2] if quick else MUTANTS
+        ms = MUTANTS[:1] if quick else MUTANTS
         for name, edits in ms:
             spec_mutant(rep, name, "C06_Bridge", "C06_Bridge_tiny.cfg", edits, ["OracleOK"], wd=wd, workers=1,
                         env={"VECTOR_FILE": wd / ("mutant_%s.ndjson" % name)})
@@ -124,8 +124,7 @@ def run(rep, tier):
     with ThreadPoolExecutor(max_workers=4) as ex:
         f_mc = ex.submit(model_check, "C06_Bridge", "C06_Bridge_%s.cfg" % sfx, wd=wd / "mc", workers=2, env={"VECTOR_FILE": vec},
                          timeout=7200)
-        f_rand = ex.submit(run_driver, "c06", ["z3rand", ev_rand, nrand, seed()], timeout=7200)
-        f_sym = ex.submit(run_driver, "c06", ["sympy", ev_sym, nsym, seed()], timeout=7200)
+        f_rand = ex.submit(run_driver, "c06", ["mixed", ev_rand, ev_sym, nrand, nsym, seed(), stride], timeout=7200)
         f_mut = ex.submit(mutants)
         r = f_mc.result()
         rep.add_mc("C06_Bridge", r, sfx)
@@ -145,7 +144,6 @@ def run(rep, tier):
         for f in fs:
             f.result()
         p_rand, _ = f_rand.result()
-        f_sym.result()
         f_mut.result()
     require("check_z3=True" in p_rand.stderr, "C06: the driver did not confirm z3wrapper.check_z3 = True")
     rep.notes["check_z3_at_start"] = True
@@ -160,8 +158,10 @@ def run(rep, tier):
     bad = _corrupted(ev_vec + evr, evs)
     require(len(bad) >= 6 and len({c for _, c in bad}) == 3, "C06: self-test events could not be built (%d)" % len(bad))
     allp = wd / "all.ndjson"
-    write_events(allp, ev_vec + evr + evs + [c for c, _ in bad])
-    v = validate_trace(TSPEC, allp, wd=wd / "tv", nchunks=3 if quick else 4)
+    nch = 2 if quick else 4
+    allev = ev_vec + evr + evs + [c for c, _ in bad]
+    write_events(allp, [e for k in range(nch) for e in allev[k::nch]])      # chunks of equal weight
+    v = validate_trace(TSPEC, allp, wd=wd / "tv", nchunks=nch)
 
     def part(lo, hi, n):
         d = {"consumed": n, "states": 0, "wall": v["wall"], "info": []}
